@@ -117,7 +117,7 @@ func execute(c Case, plan string) (*run, *pt.Failure) {
 		}
 	}
 	r.xid, _ = atenv.Global("c02", func(cx context.Context) error {
-		r.res = atenv.RunBranch(cx, env.AT, c.Branch.Mode, c.Branch.Via, false, texts(r.names, c.Branch))
+		r.res = atenv.RunBranchOpt(cx, env.AT, atenv.BranchOpts{Mode: c.Branch.Mode, Via: c.Branch.Via, Prepared: c.Branch.Prepared, KeepGoing: c.Branch.KeepGoing}, texts(r.names, c.Branch))
 		return nil // the global decision is not this property's subject
 	})
 	env.Srv.ClearFaults()
@@ -213,7 +213,13 @@ func judge(c Case, plan string, r *run, base *run) *pt.Failure {
 	if !r.res.Failed() && baseChanged && !changed {
 		return pt.Failf(sig("silent-loss"), "the fault-free run commits changes, this run committed nothing, but the caller saw no error\n%s", info())
 	}
-	if r.res.Failed() && changed && kind != "report-fail" {
+	failed := r.res.Failed()
+	if c.Branch.KeepGoing {
+		// the caller ignores statement errors (MySQL rolls back only the failing statement) and commits:
+		// what counts for it is the outcome of BeginTx and Commit
+		failed = r.res.BeginErr != "" || r.res.CommitErr != ""
+	}
+	if failed && changed && kind != "report-fail" {
 		// an error after a durable commit is tolerated only for report failures (reported separately below)
 		return pt.Failf(sig("error-but-committed"), "the caller saw an error (%s) but the changes are committed\n%s", r.res.FirstErr(), info())
 	}
@@ -347,6 +353,15 @@ func drawCase(rt *rapid.T) Case {
 	for i := 0; i < ns; i++ {
 		br.Stmts = append(br.Stmts, gen.DrawStmt(rt, tables, stmtOptions()))
 	}
+	if br.Mode == "tx" && rapid.IntRange(0, 3).Draw(rt, "keepGoing") == 0 {
+		// a statement the database rejects in the middle of a transaction whose caller carries on and commits
+		if dup := gen.DupInsert(rt, tables); dup != nil {
+			br.KeepGoing = true
+			k := rapid.IntRange(0, len(br.Stmts)).Draw(rt, "dupAt")
+			br.Stmts = append(br.Stmts[:k], append([]gen.Stmt{*dup}, br.Stmts[k:]...)...)
+		}
+	}
+	br.Prepared = rapid.IntRange(0, 3).Draw(rt, "prepared") == 0
 	return Case{Tables: tables, Branch: br, Config: gen.Config{Serializer: "json", Compress: "None", Validation: true, OnlyUpdate: rapid.Bool().Draw(rt, "onlyUpdate")}}
 }
 
